@@ -20,7 +20,8 @@ import (
 // baseSpec describes one standard-conformant ciphertext built by the
 // reference, not by the library's RNG.
 type baseSpec struct {
-	D h.B // recipient's private scalar (32 bytes)
+	Curve string `json:",omitempty"` // "" = the SM2 curve (main path); otherwise a legacyCVs name
+	D     h.B    // recipient's private scalar
 	// K is the ephemeral scalar: (C1, C2, C3) = ref.SM2EncryptParts(pub, K, M).
 	// If K is empty, C1 is the point with x = C1X and the given y parity and
 	// the ciphertext is built from the recipient's side ([d]C1 = [k]P for the
@@ -43,6 +44,7 @@ const (
 )
 
 type base struct {
+	cv   *cv
 	d    *big.Int
 	pub  ref.Point
 	c1   ref.Point
@@ -68,12 +70,12 @@ func getBase(sp baseSpec) (*base, error) {
 	if hit {
 		return b, nil
 	}
-	c := cvSM2
-	b = &base{d: new(big.Int).SetBytes(sp.D)}
+	c := cvOf(sp.Curve)
+	b = &base{cv: c, d: new(big.Int).SetBytes(sp.D)}
 	b.pub = refPub(c, b.d)
 	if len(sp.K) > 0 {
 		b.kBig = new(big.Int).SetBytes(sp.K)
-		if b.kBig.Sign() == 0 || b.kBig.Cmp(keyN) >= 0 {
+		if b.kBig.Sign() == 0 || b.kBig.Cmp(c.C.N) >= 0 {
 			return nil, errors.New("harness: k out of range")
 		}
 		b.c1 = refPub(c, b.kBig)
@@ -111,7 +113,10 @@ func getBase(sp baseSpec) (*base, error) {
 		b.c2 = append([]byte{}, b.msg...)
 		b.c3 = c.tag(b.s, b.msg)
 	}
-	if b.kBig != nil {
+	onSM2 := sp.Curve == "" || sp.Curve == "sm2-generic"
+	if !onSM2 {
+		// other curves: only the curve-generic transcription exists
+	} else if b.kBig != nil {
 		// the ciphertext proper comes from ref.SM2EncryptParts; the
 		// curve-generic transcription above must agree with it
 		c1, c2, c3, ok := ref.SM2EncryptParts(b.pub, b.kBig, b.msg)
@@ -469,7 +474,7 @@ func TestC07_ConstructiveRandom(t *testing.T) {
 		} else {
 			k = uniformScalar(gen.Mix(seed, 1))
 		}
-		n := rapid.OneOf(rapid.IntRange(1, 64), rapid.IntRange(1, 64), gen.LenClass(4096, 32, 96, 224, 256), rapid.IntRange(1, 1024)).Draw(rt, "len")
+		n := rapid.OneOf(rapid.IntRange(1, 64), rapid.IntRange(1, 64), rapid.IntRange(97, 224), gen.LenClass(4096, 32, 96, 224, 256), rapid.IntRange(1, 1024)).Draw(rt, "len")
 		if n < 1 {
 			n = 1
 		}
